@@ -56,6 +56,8 @@ def run(db, chk):
     chk.ob("suffix-constant", "add_lock_suffix (or its closures) builds the extension from DOT_LOCK_SUFFIX", bool(fam & clo), "users of the constant: %s" % sorted(clo), key="suffix-constant")
     c = db.const("gix_lock::DOT_LOCK_SUFFIX")
     chk.ob("spec-constant", "DOT_LOCK_SUFFIX", bytes.fromhex(c["bytes"]) == b".lock", "", "%s:%d" % (c["file"], c["line"]), key="spec-constant|DOT_LOCK_SUFFIX")
+    strip_rule(db, chk)
+    boundary_absolute_rule(db, chk)
     for rp in db.find(r"^gix_lock::file::<impl gix_lock::(File|Marker)>::resource_path$"):
         chk.ob("resource-is-stripped-lock-path", rp.name, bool(rp.calls_to(r"file::strip_lock_suffix$")), "", "%s:%d" % (rp.file, rp.line), key="resource-is-stripped|%s" % rp.name)
     commits = db.find(r"^gix_lock::commit::<impl gix_lock::(File|Marker)>::commit$")
@@ -101,3 +103,66 @@ def boundary_rule(db, chk):
         ok = all(re.search(r"std::path::(Path(Buf)?|Components(<.*>)?)$", t.replace("&", "").replace("mut ", "").strip()) for t in tys)
         chk.ob("boundary-compared-as-path", "remove::Iter::next", ok, "the boundary is compared as %s: a boundary spelled `dir/` or `dir/.` is not recognised and the boundary directory itself (and empty ancestors) are removed" % tys,
                c.where(), key="boundary-compared-as-path")
+
+
+REPEATED = r"::trim_end_matches$|::trim_matches$|::trim_start_matches$|::trim_right_matches$|::replace$|::replacen$|::rsplit$|::rsplitn$|::trim_end$|::trim$"
+
+
+def strip_rule(db, chk):
+    """commit() renames the lock file onto strip_lock_suffix(lock path), so that function has to invert add_lock_suffix exactly: (a) it removes the
+    suffix ONCE - no trim_*_matches/replace on the name, which would turn `Cargo.lock.lock` into `Cargo`; (b) it may demand UTF-8 only of the
+    extension (which is our own ASCII `lock` behind the last dot): every OsStr::to_str in it is applied to a value that derives from
+    Path::extension(), never to the file name or the whole path, or non-UTF-8 resource names panic in resource_path()/commit()."""
+    f = db.one(r"^gix_lock::file::strip_lock_suffix$")
+    fam = [f] + list(db.closures_of(f))
+    ctl = sum(1 for crate in ("gix_path", "gix_url", "gix_ref", "gix_config", "gix_glob", "gix_attributes", "gix") for g in db.by_crate.get(crate, []) for c in g.calls() if c.is_(REPEATED))
+    chk.floor("control: repeated-strip string functions recognised elsewhere in the workspace", ctl, 1)
+    bad = [(g, c) for g in fam for c in g.calls() if c.is_(REPEATED)]
+    for g, c in bad:
+        chk.ob("lock-suffix-stripped-once", "strip_lock_suffix %s@%d" % (c.name.split("::")[-1], c.line), False,
+               "removes every repetition of the pattern: a resource that itself ends in `.lock` is committed to a different file (Cargo.lock.lock -> Cargo)", c.where(), key="strip-once|%s" % c.name.split("::")[-1])
+    if not bad:
+        chk.ob("lock-suffix-stripped-once", "strip_lock_suffix (no repeated-strip call)", True)
+    n = 0
+    for g in fam:
+        gfl = Flow(g)
+        for c in g.calls():
+            if c.is_(r"OsStr::to_str$|Path::to_str$|::to_str$|::into_string$|str::from_utf8$") and c.args:
+                n += 1
+                ok = gfl.derives_from_call(c.args[0], r"Path::extension$") and not gfl.derives_from_call(c.args[0], r"Path::file_name$|Path::file_stem$")
+                chk.ob("utf8-demanded-of-extension-only", "strip_lock_suffix %s@%d" % (c.name.split("::")[-1], c.line), ok,
+                       "a UTF-8 conversion that can fail is applied to more than the extension: resource names with invalid UTF-8 panic when the lock is committed",
+                       c.where(), key="strip-utf8|%s" % c.name.split("::")[-1])
+    chk.set("strip_lock_suffix_utf8_conversions", n)
+
+
+ABSOLUTISE = r"env::current_dir$|path::absolute$|fs::canonicalize$|Path::canonicalize$|realpath"
+
+
+def boundary_absolute_rule(db, chk):
+    """the tempfile crate turns a relative directory into an absolute path when it creates the file, and cleanup removes parent directories only
+    while `directory.starts_with(boundary)` holds.  A relative boundary never is a prefix of an absolute path, so for relative resource paths no
+    directory created for the lock would ever be removed.  Somewhere in gix-tempfile the boundary therefore has to be made absolute in the same
+    way: a value that derives from current_dir()/absolute()/canonicalize() flows into AutoRemove::TempfileAndEmptyParentDirectoriesUntil or
+    into the boundary argument of empty_upward_until_boundary."""
+    hits = []
+    n = 0
+    for f in db.by_crate["gix_tempfile"]:
+        if f.kind == "promoted":
+            continue
+        fl = None
+        for bi, si, pl, rv, ln, mc in f.assigns():
+            if rv[0] == "agg" and rv[1] == "adt" and rv[3] == "TempfileAndEmptyParentDirectoriesUntil" and rv[4]:
+                n += 1
+                fl = fl or Flow(f)
+                if fl.derives_from_call(rv[4][0], ABSOLUTISE):
+                    hits.append("%s:%d" % (f.name.split("::")[-1], ln))
+        for c in f.calls_to(r"remove_dir::empty_upward_until_boundary$"):
+            n += 1
+            fl = fl or Flow(f)
+            if len(c.args) > 1 and fl.derives_from_call(c.args[1], ABSOLUTISE):
+                hits.append("%s:%d" % (f.name.split("::")[-1], c.line))
+    chk.floor("gix_tempfile: constructions/uses of the cleanup boundary", n, 1)
+    chk.ob("cleanup-boundary-made-absolute", "gix_tempfile (%d construction/use site(s))" % n, bool(hits),
+           "no boundary directory handed to the cleanup derives from current_dir()/absolute(): with a relative resource path the tempfile's path is absolute, `starts_with(boundary)` fails and the directories created for the lock are left behind",
+           key="boundary-absolute|gix_tempfile")
